@@ -130,6 +130,40 @@ def c12_2(ctx):
     _refcheck(ctx, VSS, "make_variable_handler.f", "ss_variable_handler", "truncated-payload:variable")
     _refcheck(ctx, VSS, "ScriptStreamer.get_opcode", "ss_get_opcode", "malformed-flag")
     _refcheck(ctx, BSS, "make_opcode_variable_list.make_variable_decoder.decode_OP_PUSHDATA", "bss_decode_pushdata", "truncated-length-field")
+    # a truncation test written as arithmetic on the script's length (not as a test of the slice that was read) counts from the
+    # byte AFTER the opcode: the payload is short exactly when len(script) - pc - 1 - size < 0 for the pc the handler was given
+    from rules.C15 import _lin as _affine, _clean as _cl
+    sh = ctx.func(VSS, "make_sized_handler.constant_size_opcode_handler")
+    wsh = sym.walk(ctx, sh)
+    pcn = sh.params()[1]
+    scn = sh.params()[0]
+    nones = [e for e in wsh.exits if e.kind == "return" and isinstance(e.value, ast.Tuple) and len(e.value.elts) == 2 and isinstance(e.value.elts[1], ast.Constant) and e.value.elts[1].value is None]
+    seen_arith = False
+    for e in nones:
+        for o in (gi.f_opaques(e.cond) if e.cond not in (True, False) else []):
+            if not isinstance(o, str) or "len(%s)" % scn not in o or "[" in o:
+                continue
+            try:
+                cmp_ = ast.parse(o, mode="eval").body
+            except SyntaxError:
+                continue
+            if not (isinstance(cmp_, ast.Compare) and len(cmp_.ops) == 1 and isinstance(cmp_.ops[0], ast.Lt)):
+                continue
+            a_, b_ = _affine(cmp_.left), _affine(cmp_.comparators[0])
+            if a_ is None or b_ is None:
+                continue
+            d_ = dict(a_)
+            for k_, v_ in b_.items():
+                d_[k_] = d_.get(k_, 0) - v_
+            d_ = _cl(d_)
+            if d_.get("len(%s)" % scn) == 1 and d_.get(pcn) == -1 and d_.get("size") == -1 and set(d_) <= {"len(%s)" % scn, pcn, "size", ""}:
+                seen_arith = True
+                holds = sym.entails(e.cond, ("op", o))
+                ctx.check(holds and d_.get("", 0) == -1, "truncation-counts-from-the-payload", ctx.where(sh, e.node),
+                          "constant_size_opcode_handler takes the push for truncated when `%s`, i.e. when len(script) - pc - size < %d for the pc it was given; the payload starts one byte AFTER the opcode, so it is short exactly "
+                          "when len(script) - pc - size < 1: a push short by one byte is taken for complete" % (o, -d_.get("", 0)), sample={"test": o})
+    if not seen_arith:
+        ctx.ok("truncation-counts-from-the-payload", sample={"arithmetic_tests_on_the_length": 0})
     # the length decoder of PUSHDATA1/2/4 reports a length field cut off by the end of the script as size None (the variable
     # handler turns that into `malformed`): it has such an exit, and the exit is reached by something that fails on short input
     d = ctx.func(BSS, "make_opcode_variable_list.make_variable_decoder.decode_OP_PUSHDATA")
